@@ -52,6 +52,19 @@ def run(mode, data, timeout=60):
             return {'status': 'ok', 'result': kv}
         return {'status': 'unknown', 'detail': (out or p.stderr)[-300:]}
     except subprocess.TimeoutExpired:
-        return {'status': 'timeout', 'detail': 'timeout %ds' % timeout}
+        # a timeout is believed only if it repeats with six times the budget (a loaded machine is not a hang)
+        try:
+            p = subprocess.run([exe, mode, path], capture_output=True, text=True, timeout=timeout * 6)
+            out = p.stdout.strip().split('\n')[-1] if p.stdout.strip() else ''
+            if out.startswith('RESULT'):
+                kv = dict(x.split('=', 1) for x in out[7:].split() if '=' in x)
+                return {'status': 'ok', 'result': kv, 'note': 'first attempt timed out after %ds' % timeout}
+            if out.startswith('PANIC'):
+                return {'status': 'panic', 'detail': out[6:]}
+            if p.returncode != 0 and not out:
+                return {'status': 'crash', 'detail': 'exit %d: %s' % (p.returncode, p.stderr[-300:])}
+            return {'status': 'unknown', 'detail': (out or p.stderr)[-300:]}
+        except subprocess.TimeoutExpired:
+            return {'status': 'timeout', 'detail': 'timeout %ds, and again with %ds' % (timeout, timeout * 6)}
     finally:
         os.unlink(path)
